@@ -1076,5 +1076,5 @@ class Parsent(object):
             try:
                 self.data = json.loads(self.body.decode('utf-8'),
                                        object_pairs_hook=dict)
-            except ValueError as ex:
+            except (ValueError, RecursionError) as ex:  # invalid or too deeply nested
                 self.data = None
